@@ -635,6 +635,17 @@ func (rw *rewriter) recvExprs(f *ast.File) {
 						name := map[string]string{"(*time.Timer).Stop": "TimerStop", "(*time.Timer).Reset": "TimerReset",
 							"(*time.Ticker).Stop": "TickerStop", "(*time.Ticker).Reset": "TickerReset",
 							"(*sync.WaitGroup).Add": "WGAdd", "(*sync.WaitGroup).Done": "WGDone", "(*sync.WaitGroup).Wait": "WGWait"}[fn.FullName()]
+						if cn := map[string]string{"(*sync.Cond).Wait": "CondWaitOn", "(*sync.Cond).Signal": "CondSignal", "(*sync.Cond).Broadcast": "CondBroadcast"}[fn.FullName()]; cn != "" {
+							// only for a plain sync.Cond receiver (a promoted method of an
+							// embedded Cond keeps the older, weaker treatment of Wait)
+							t := rw.info.TypeOf(sel.X)
+							if pt, isPtr := t.(*types.Pointer); isPtr {
+								t = pt.Elem()
+							}
+							if nt, ok := t.(*types.Named); ok && nt.Obj().Pkg() != nil && nt.Obj().Pkg().Path() == "sync" && nt.Obj().Name() == "Cond" {
+								name = cn
+							}
+						}
 						if name != "" {
 							recv := sel.X
 							if _, isPtr := rw.info.TypeOf(recv).(*types.Pointer); !isPtr {
